@@ -117,6 +117,22 @@ class Textgrid:
         if tier.name in self.tierNames:
             raise errors.TierNameExistsError("Tier name already in tier")
 
+        # Report changes to the timestamps before modifying anything, so that
+        # the textgrid is left untouched if the reporter raises an exception
+        minV = tier.minTimestamp
+        if self.minTimestamp is not None and minV < self.minTimestamp:
+            errorReporter(
+                errors.TextgridStateAutoModified,
+                f"Minimum timestamp in Textgrid changed from ({self.minTimestamp}) to ({minV})",
+            )
+
+        maxV = tier.maxTimestamp
+        if self.maxTimestamp is not None and maxV > self.maxTimestamp:
+            errorReporter(
+                errors.TextgridStateAutoModified,
+                f"Maximum timestamp in Textgrid changed from ({self.maxTimestamp}) to ({maxV})",
+            )
+
         if tierIndex is None:
             self._tierDict[tier.name] = tier
         else:  # Need to recreate the tierDict with the new order
@@ -129,21 +145,9 @@ class Textgrid:
                 newTierDict[tmpName] = self.getTier(tmpName)
             self._tierDict = newTierDict
 
-        minV = tier.minTimestamp
-        if self.minTimestamp is not None and minV < self.minTimestamp:
-            errorReporter(
-                errors.TextgridStateAutoModified,
-                f"Minimum timestamp in Textgrid changed from ({self.minTimestamp}) to ({minV})",
-            )
         if self.minTimestamp is None or minV < self.minTimestamp:
             self.minTimestamp = minV
 
-        maxV = tier.maxTimestamp
-        if self.maxTimestamp is not None and maxV > self.maxTimestamp:
-            errorReporter(
-                errors.TextgridStateAutoModified,
-                f"Maximum timestamp in Textgrid changed from ({self.maxTimestamp}) to ({maxV})",
-            )
         if self.maxTimestamp is None or maxV > self.maxTimestamp:
             self.maxTimestamp = maxV
 
@@ -509,6 +513,8 @@ class Textgrid:
     def renameTier(self, oldName: str, newName: str) -> None:
         oldTier = self.getTier(oldName)
         tierIndex = self.tierNames.index(oldName)
+        if newName != oldName and newName in self.tierNames:
+            raise errors.TierNameExistsError("Tier name already in tier")
         self.removeTier(oldName)
         self.addTier(oldTier.new(newName, oldTier.entries), tierIndex)
 
@@ -522,8 +528,18 @@ class Textgrid:
         reportingMode: Literal["silence", "warning", "error"] = "warning",
     ) -> None:
         tierIndex = self.tierNames.index(name)
-        self.removeTier(name)
-        self.addTier(newTier, tierIndex, reportingMode)
+        oldTier = self.removeTier(name)
+        try:
+            self.addTier(newTier, tierIndex, reportingMode)
+        except errors.PraatioException:
+            # Leave the textgrid as it was before the call
+            self._tierDict[name] = oldTier
+            tierNames = list(self.tierNames)
+            tierNames.insert(tierIndex, tierNames.pop())
+            self._tierDict = OrderedDict(
+                (tmpName, self._tierDict[tmpName]) for tmpName in tierNames
+            )
+            raise
 
     def validate(
         self, reportingMode: Literal["silence", "warning", "error"] = "warning"
